@@ -44,9 +44,12 @@ class TqdmStub:
         pass
 
 
-def volt_patches(proxy=None, extra=None, opener=None, globber=None):
+def volt_patches(proxy=None, extra=None, opener=None, globber=None, units=False):
     proxy = proxy or npx.NPProxy()
     b = dict(shadow.DEFAULT_BUILTINS)
+    if units:
+        from props.frame_common import UnitStubSym
+        extra = list(extra or []) + [(DS, dict(unit_utils=UnitStubSym)), (A, dict(unit_utils=UnitStubSym)), (B, dict(unit_utils=UnitStubSym))]
     bk = dict(xp=proxy, np=proxy, tqdm=TqdmStub, **b)
     if opener is not None:
         bk['open'] = opener
